@@ -628,8 +628,10 @@ class NameRecord(object):
         self.langID = safeEval(attrs["langID"])
         s = strjoin(content).strip()
         encoding = self.getEncoding()
-        if self.encodingIsUnicodeCompatible() or safeEval(
-            attrs.get("unicode", "False")
+        # toXML writes unicode="False" when the bytes do not decode, whatever
+        # the encoding is: the text is then the inverse of write8bit.
+        if safeEval(
+            attrs.get("unicode", str(self.encodingIsUnicodeCompatible()))
         ):
             self.string = s.encode(encoding)
         else:
